@@ -58,9 +58,11 @@ class St:
         self.ret = None
         self.thrown = None
         self.dead = False    # path stopped by a violation that makes continuing meaningless
+        self.brk = False     # a `break` inside a switch is pending
         self.infeasible = False
         self.nin = 0
         self.lambdas = {}
+        self.lsz = {}        # local byte buffers (std::vector<char> tmp): (frame key, var id) -> size
         self.reads_of = []   # (path, line, fn) - every member value consulted in a computation (for L8)
         self.stale = []      # (path, read line, read fn, assign line) - consulted, then redefined by the same run
 
@@ -79,10 +81,12 @@ class St:
         n.ret = self.ret
         n.thrown = self.thrown
         n.dead = self.dead
+        n.brk = self.brk
         n.infeasible = self.infeasible
         n.nin = self.nin
         n.reads_of = list(self.reads_of)
         n.lambdas = dict(self.lambdas)
+        n.lsz = dict(self.lsz)
         n.stale = list(self.stale)
         return n
 
@@ -102,6 +106,7 @@ class Frame:
             if ABSTRACT_FILE in p['t']:
                 self.file_parm_ids.add(p['id'])
         self.key = (fn['name'], depth)
+        self.stream_this = False   # the function is a method of the stream itself: read()/write()/seekg() on the implicit this are stream operations
         self.obj_alias = {}   # parameter name -> member path prefix of the object it designates (`*this` passed to a helper function)
         self.ptr_alias = {}   # pointer parameter name -> ('addr', member path) | ('data', container path)
         self.outer_key = None
@@ -214,7 +219,7 @@ class Interp:
         for s in stmts:
             nxt = []
             for cur in states:
-                if cur.ret is not None or cur.thrown or cur.dead:
+                if cur.ret is not None or cur.thrown or cur.dead or cur.brk:
                     nxt.append(cur)
                 else:
                     nxt.extend(self.exec_stmt(s, cur, frame))
@@ -222,6 +227,12 @@ class Interp:
             if len(states) > MAX_PATHS:
                 raise AnalysisBroken('path cap exceeded in ' + frame.fn['name'])
         return states
+
+    @staticmethod
+    def _is_byte_buffer(v):
+        t = (v.get('t') or '').replace('const ', '')
+        return t.startswith('std::vector<char') or t.startswith('std::vector<unsigned char') or t.startswith('std::vector<uint8_t') or \
+            t in ('std::string', 'std::basic_string<char>') or t.startswith('std::vector<signed char')
 
     def broken(self, what, n, frame):
         raise AnalysisBroken('unsupported construct in codec body %s (%s:%s): %s' %
@@ -269,19 +280,40 @@ class Interp:
                     continue
                 nxt = []
                 for cur in states:
-                    if v.get('init') is None:
+                    if v.get('init') is None and self._is_byte_buffer(v):
+                        cur.lsz[(frame.key, v['id'])] = Lin(0)
+                        nxt.append(cur)
+                    elif v.get('init') is None:
                         cur.lenv[(frame.key, v['id'])] = Lin.term(('local', v['name']))
                         nxt.append(cur)
                     elif v.get('kind') in ('int', 'bool', 'enum'):
                         for s2, val in self.ev(v['init'], cur, frame):
                             s2.lenv[(frame.key, v['id'])] = val
                             nxt.append(s2)
+                    elif self._is_byte_buffer(v):
+                        init = v.get('init')
+                        args = [a_ for a_ in init.get('args', []) if not (isinstance(a_, dict) and a_.get('k') == 'DefaultArg')] \
+                            if isinstance(init, dict) and init.get('k') == 'Construct' else []
+                        if len(args) == 1:
+                            for s2, val in self.ev(args[0], cur, frame):
+                                s2.lsz[(frame.key, v['id'])] = val
+                                nxt.append(s2)
+                        elif not args:
+                            cur.lsz[(frame.key, v['id'])] = Lin(0)
+                            nxt.append(cur)
+                        else:
+                            self.broken('local buffer %s constructed from %d arguments' % (v.get('name'), len(args)), s, frame)
                     else:
                         self.broken('local variable of type ' + v.get('t', '?'), s, frame)
                 states = nxt
             return states
         if k in ('While', 'For', 'Do'):
             return self.exec_resync_loop(s, st, frame)
+        if k == 'Switch':
+            return self.exec_switch(s, st, frame)
+        if k == 'Break':
+            st.brk = True
+            return [st]
         if k == 'Throw':
             st.thrown = s.get('thrown') or 'throw'
             return [st]
@@ -290,6 +322,61 @@ class Interp:
         if k == 'Cast' and s.get('cast') == 'ToVoid':
             return [st]
         self.broken('statement kind ' + str(k), s, frame)
+
+    def exec_switch(self, s, st, frame):
+        """switch (v) { case c: ...; break; ... default: ... } as the chain of guards v == c it stands for (fall-through included)"""
+        if s.get('init'):
+            self.broken('switch with init statement', s, frame)
+        body = s.get('body')
+        stmts = body['body'] if isinstance(body, dict) and body.get('k') == 'Compound' else [body]
+        flat = []
+        for st_ in stmts:
+            labels = []
+            cur = st_
+            while isinstance(cur, dict) and cur.get('k') in ('Case', 'Default'):
+                labels.append(cur)
+                cur = cur.get('sub')
+            flat.append((labels, cur))
+        entries = [(i, lab) for i, (labels, _) in enumerate(flat) for lab in labels]
+        if not entries:
+            self.broken('switch without case labels', s, frame)
+        consts = []
+        for i, lab in entries:
+            if lab['k'] == 'Case':
+                v = lab.get('value')
+                cv = v.get('v') if isinstance(v, dict) else None
+                if cv is None and isinstance(v, dict):
+                    for x in walk(v):
+                        if 'v' in x:
+                            cv = x['v']
+                            break
+                if cv is None:
+                    self.broken('case label without a constant value', lab, frame)
+                consts.append((i, int(cv)))
+        default = [i for i, lab in entries if lab['k'] == 'Default']
+        outs = []
+        for s1, v in self.ev(s['cond'], st, frame):
+            # decide the cases one after the other; what is left goes to default (or past the switch)
+            pending = [s1]
+            for i, c in consts:
+                nxt = []
+                for cur in pending:
+                    for s2, t in self.split(sym.g_cmp(v, '==', Lin(c)), cur):
+                        if t:
+                            outs.extend(self.exec_block([b for _, b in flat[i:] if b is not None], s2, frame))
+                        else:
+                            nxt.append(s2)
+                pending = nxt
+            for cur in pending:
+                if cur.dead:
+                    outs.append(cur)
+                elif default:
+                    outs.extend(self.exec_block([b for _, b in flat[default[0]:] if b is not None], cur, frame))
+                else:
+                    outs.append(cur)
+        for o in outs:
+            o.brk = False
+        return outs
 
     # the only loop a codec may contain: the signature search of ObjectHeaderBase::read.
     # It is modelled as "4 bytes read into `signature`"; its table is the subject of rule S1.
@@ -350,6 +437,11 @@ class Interp:
                     return self.prim_skip(e, st, frame, 'skipp')
                 if fn in ('eof', 'good', 'tellg', 'tellp'):
                     return [st]
+                # a helper method of the stream interface itself (AbstractFile::skipX, readString, ...): its body is executed with the
+                # stream as implicit this
+                cands = [f for f in self.F.functions.get(e.get('callee'), []) if f['sig'] == e.get('csig') and f.get('body')]
+                if e.get('calleeInRoot') and len(cands) == 1 and not e.get('virt_pure'):
+                    return [s2 for s2, _ in self.call_bound(cands[0], frame.prefix, frame.dyn_cls, e, st, frame, stream_this=True)]
                 self.broken('stream operation ' + fn, e, frame)
             if e.get('ck') == 'member' and e.get('fn') == 'resize':
                 return self.prim_resize(e, st, frame)
@@ -365,7 +457,9 @@ class Interp:
         self.broken('expression statement ' + k, e, frame)
 
     def is_file_parm(self, obj, frame):
-        o = strip_all_casts(obj)
+        if frame.stream_this and (obj is None or (isinstance(strip_all_casts(obj), dict) and strip_all_casts(obj).get('k') == 'This')):
+            return True
+        o = strip_all_casts(obj) if obj is not None else None
         return isinstance(o, dict) and o.get('k') == 'Ref' and o.get('id') in frame.file_parm_ids
 
     def abs_path(self, e, frame):
@@ -484,6 +578,9 @@ class Interp:
             it.extra = {'scalar': False, 'kind': 'container', 'rec': f.get('rec'), 'trivCopy': tgt.get('trivCopy', True),
                         'elem_t': f['elem'].get('t')}
             return it
+        if tgt['kind'] == 'localcontainer' and (frame.key, tgt['id']) in st.lsz:
+            return Item(kind='bytes', path=None, width=n, elem=1, line=e['l'], file=frame.fn['file'], fn=frame.fn['name'],
+                        via=frame.chain, src='localbuf', extra={'name': tgt['name'], 'id': tgt['id'], 'cap': st.lsz[(frame.key, tgt['id'])]})
         if tgt['kind'] == 'local':
             return Item(kind='field', path=None, width=n, line=e['l'], file=frame.fn['file'], fn=frame.fn['name'],
                         via=frame.chain, src='local', target_size=tgt.get('target_size'), extra={'name': tgt['name'], 'id': tgt['id']})
@@ -502,6 +599,11 @@ class Interp:
                 d2 = cap - sym.drop_trunc(n)
                 ok = d2.is_const() and d2.c >= 0 and self.mode == 'write'
             capdesc = '%s.size()*%d = %r' % (fmt_path(it.path), it.elem or 1, cap)
+        elif it.src == 'localbuf':
+            cap = it.extra['cap']
+            d = cap - n
+            ok = d.is_const() and d.c >= 0
+            capdesc = 'local buffer %s.size() = %r' % (it.extra.get('name'), cap)
         elif it.target_size is not None:
             ok = n.is_const() and n.c <= it.target_size
             capdesc = 'sizeof = %d' % it.target_size
@@ -518,6 +620,12 @@ class Interp:
         if self.mode != 'read':
             self.broken('stream read inside a %s function' % self.mode, e, frame)
         tgt = self.ptr_target(e['args'][0], frame)
+        if tgt['kind'] == 'localcontainer' and (frame.key, tgt['id']) in st.lsz:
+            # bytes read into a local scratch buffer are consumed and discarded: a skip - but one that, unlike seekg, fails on a short stream
+            for s2, n in self.ev(e['args'][1], st, frame):
+                it = self.make_item(e, tgt, n, s2, frame)
+                self.bound_check(it, s2, frame, 'B1')
+            return self.prim_skip(e, st, frame, 'seekg', count_arg=1, by_read=True)
         outs = []
         for s2, n in self.ev(e['args'][1], st, frame):
             it = self.make_item(e, tgt, n, s2, frame)
@@ -529,7 +637,7 @@ class Interp:
         st.items.append(it)
         chunk = None
         if self.stream is not None:
-            w0 = sym.drop_trunc(it.width)
+            w0 = sym.subst_eq(sym.drop_trunc(it.width), st.guards)
             if w0.is_const() and w0.c == 0:
                 return [st]
         if self.stream is not None:
@@ -578,13 +686,13 @@ class Interp:
             outs.append(s2)
         return outs
 
-    def prim_skip(self, e, st, frame, which):
+    def prim_skip(self, e, st, frame, which, count_arg=0, by_read=False):
         if (which == 'seekg') != (self.mode == 'read'):
             self.broken('%s inside a %s function' % (which, self.mode), e, frame)
         outs = []
-        for s2, n in self.ev(e['args'][0], st, frame):
+        for s2, n in self.ev(e['args'][count_arg], st, frame):
             it = Item(kind='pad', path=None, width=n, line=e['l'], file=frame.fn['file'], fn=frame.fn['name'], via=frame.chain,
-                      src='pad', extra={})
+                      src='pad', extra={'by_read': True} if by_read else {})
             s2.items.append(it)
             if self.stream is not None and self.mode == 'read':
                 if n.is_const() and n.c == 0:
@@ -610,6 +718,13 @@ class Interp:
         return outs
 
     def prim_resize(self, e, st, frame):
+        o = strip_all_casts(e['obj'])
+        if isinstance(o, dict) and o.get('k') == 'Ref' and o.get('dk') == 'local' and (frame.key, o['id']) in st.lsz:
+            outs = []
+            for s2, n in self.ev(e['args'][0], st, frame):
+                s2.lsz[(frame.key, o['id'])] = n
+                outs.append(s2)
+            return outs
         path = self.abs_path(e['obj'], frame)
         if path is None:
             self.broken('resize on a non-member', e, frame)
@@ -657,8 +772,9 @@ class Interp:
         fn, prefix, dyn = self.resolve_call(e, frame)
         return self.call_bound(fn, prefix, dyn, e, st, frame)
 
-    def call_bound(self, fn, prefix, dyn, e, st, frame, inherit=None):
+    def call_bound(self, fn, prefix, dyn, e, st, frame, inherit=None, stream_this=False):
         nf = Frame(fn, prefix, dyn, frame.depth + 1, frame.chain + (fn['name'],))
+        nf.stream_this = stream_this
         if inherit is not None:
             # a lambda sees the enclosing function's stream parameter, locals and aliases (capture by reference)
             nf.file_parm_ids |= inherit.file_parm_ids
@@ -808,6 +924,8 @@ class Interp:
                 if path is None:
                     self.broken('size() on a non-member', e, frame)
                 return [(st, self.container_size(path, st))]
+            if e.get('ck') == 'member' and e.get('fn') == 'empty' and not e.get('calleeInRoot') and not e.get('args'):
+                return [(s2, Lin(1 if t else 0)) for s2, t in self.ev_cond(e, st, frame)]
             if e.get('callee') in ('std::max', 'std::min') and len(e.get('args', [])) == 2:
                 outs = []
                 for s1, a in self.ev(e['args'][0], st, frame):
@@ -914,6 +1032,12 @@ class Interp:
                         g = sym.g_cmp(sym.op('&', a, b), '!=', Lin(0))
                     outs.extend(self.split(g, s2))
             return outs
+        if k == 'Call' and e.get('ck') == 'member' and e.get('fn') == 'empty' and not e.get('calleeInRoot') and not e.get('args'):
+            # container.empty()  <=>  container.size() == 0
+            path = self.abs_path(e['obj'], frame)
+            if path is None:
+                self.broken('empty() on a non-member', e, frame)
+            return self.split(sym.g_cmp(self.container_size(path, st), '==', Lin(0)), st)
         if k == 'Call' and e.get('calleeInRoot') and e.get('ck') == 'member':
             outs = []
             for s2, rv in self.call_inline(e, st, frame):
